@@ -631,10 +631,14 @@ def main(argv):
             for e in e2:
                 corr_broken.append("execution error (%s): %s" % (sub, e))
     allres = corpus_res + results
-    viols = [r for r in allres if r["violates"]]
-    diffs = [r for r in allres if not r["agree"] and not r["violates"]]
-
     known, _fixed = load_known()
+    viols = [r for r in allres if r["violates"]]
+    # A known finding is behaviour the model reproduces: a case whose observation DIFFERS from the
+    # model stays a DIFF whether or not its monitor hit matches (or shrinks to) a known signature.
+    # Cases with a monitor hit are reported as violations first; the DIFF branch below only runs when
+    # no violation outside the known findings was reported.
+    diffs = [r for r in allres if not r["agree"]]
+
     exit_code = 0
     out_lines = []
     new_viol = 0
